@@ -41,6 +41,9 @@ where
         .codegen_set_addr(LOOP_ADDR)
         .jump(LOOP_ADDR);
     emulator.cpu.regs.set_pc(LOOP_ADDR);
+    // Loop must be executed even if the previous program was waiting in HALT,
+    // otherwise the next interrupt returns into the middle of the jump
+    emulator.cpu.halted = false;
 
     // Directly load screen memory from the asset
     let memory = emulator.controller.memory.ram_page_data_mut(bank);
